@@ -91,12 +91,25 @@ Record sview := mk_sview {
   sv_vpc_ok : bool;            (* VerifyPeerCertificate returns nil *)
   sv_vc_ok : bool;             (* VerifyConnection returns nil *)
   sv_fin_arrives : bool;       (* the server's Finished record opens under the keys derived locally *)
-  sv_fin_valid : bool          (* its verify_data equals PRF(ms, "server finished", H(local transcript)) *)
+  sv_fin_valid : bool;         (* its verify_data equals PRF(ms, "server finished", H(local transcript)) *)
+  sv_scheme_fits_key : bool;   (* the CLAIMED signature algorithm is one the leaf's key type produces (Ed25519 key <->
+                                  Ed25519, ECDSA key <-> ECDSA, RSA key <-> RSA / PSS) and its hash yields a digest *)
+  sv_signed_by_leaf : bool     (* ground truth: the signature was made with the leaf's private key over this
+                                  handshake's client_random||server_random||params.  [sv_sig_valid] is only what
+                                  the routine selected by the KEY TYPE returns on the digest of the CLAIMED hash *)
 }.
 
 (* VerifyServerCert: one call, all four must hold *)
 Definition sv_x509_ok (v : sview) : bool :=
   sv_chain_ok v && sv_name_ok v && sv_time_ok v && sv_certalgs_ok v.
+
+(* THE SWITCH for defect F45 (signature scheme confusion, repaired in /repo by 6569e78):
+   internal/handshakecrypto/crypto.go verifyCertificateSignature chose the verification routine by
+   the type of the certificate's public key but hashed with the algorithm the PEER CLAIMED; an ECDSA
+   certificate with the Ed25519 scheme gave an empty digest, for which a signature can be computed
+   from the public key alone.  [true] = the repaired code: the claimed scheme must fit the key type
+   and the digest must be non-empty.  [false] = the code before the repair. *)
+Definition verify_binds_scheme_to_key : bool := true.
 
 (* flight3Parse: flight complete?  certificate mandatory for certificate suites *)
 Definition client12_flight3 (c : ccfg) (v : sview) : verdict :=
@@ -109,11 +122,12 @@ Definition client12_vc (c : ccfg) (v : sview) : verdict :=
   check (negb (cc_has_vc c) || sv_vc_ok v) a_bad_certificate.
 
 (* flight5Generate -> initializeCipherSuite *)
-Definition client12_init (c : ccfg) (v : sview) : verdict :=
+Definition client12_init_with (bind : bool) (c : ccfg) (v : sview) : verdict :=
   match sv_suite v with
   | SCert =>
       andthen (check (sv_ske_msg v && sv_scheme_allowed v) a_insufficient_security)
-     (andthen (check (sv_certs_nonempty v && sv_cert_parses v && sv_sig_valid v) a_bad_certificate)
+     (andthen (check (sv_certs_nonempty v && sv_cert_parses v && (negb bind || sv_scheme_fits_key v) && sv_sig_valid v)
+                     a_bad_certificate)
      (andthen (check (cc_skip_verify c || sv_x509_ok v) a_bad_certificate)
      (andthen (check (negb (cc_has_vpc c) || sv_vpc_ok v) a_bad_certificate)
               (client12_vc c v))))
@@ -124,8 +138,11 @@ Definition client12_init (c : ccfg) (v : sview) : verdict :=
 Definition client12_fin (v : sview) : verdict :=
   if negb (sv_fin_arrives v) then Wait else check (sv_fin_valid v) a_handshake_failure.
 
-Definition client12 (c : ccfg) (v : sview) : verdict :=
-  andthen (client12_flight3 c v) (andthen (client12_init c v) (client12_fin v)).
+Definition client12_with (bind : bool) (c : ccfg) (v : sview) : verdict :=
+  andthen (client12_flight3 c v) (andthen (client12_init_with bind c v) (client12_fin v)).
+
+Definition client12 : ccfg -> sview -> verdict := client12_with verify_binds_scheme_to_key.
+Definition client12_init : ccfg -> sview -> verdict := client12_init_with verify_binds_scheme_to_key.
 
 Definition client_accepts_server (c : ccfg) (v : sview) : bool := is_accept (client12 c v).
 
@@ -137,6 +154,16 @@ Definition client_required (c : ccfg) (v : sview) : bool :=
    else true)
   && (negb (cc_has_vc c) || sv_vc_ok v)
   && sv_fin_arrives v && sv_fin_valid v.
+
+(* the credential itself (not only the checks the code makes): for certificate suites the signature
+   really is by the leaf key over this handshake, under a scheme that fits the key *)
+Definition client_credential (c : ccfg) (v : sview) : bool :=
+  client_required c v && (negb (is_cert (sv_suite v)) || (sv_scheme_fits_key v && sv_signed_by_leaf v)).
+
+(* unforgeability, the premise of the binding theorems: under a scheme that fits the key, only the
+   holder of the leaf's private key makes the key-type routine accept *)
+Definition sig_sound_s (v : sview) : Prop :=
+  sv_scheme_fits_key v = true -> sv_sig_valid v = true -> sv_signed_by_leaf v = true.
 
 (* ================================================================ DTLS 1.2 server *)
 
@@ -165,15 +192,19 @@ Record cview := mk_cview {
   cl_vpc_ok : bool;
   cl_vc_ok : bool;
   cl_fin_arrives : bool;       (* the client's Finished record opens under the keys derived locally *)
-  cl_fin_valid : bool          (* its verify_data equals PRF(ms, "client finished", H(local transcript)) *)
+  cl_fin_valid : bool;         (* its verify_data equals PRF(ms, "client finished", H(local transcript)) *)
+  cl_cert_msg : bool;          (* a Certificate message (even an empty one) is in the flight: state.SessionID = nil *)
+  cl_scheme_fits_key : bool;   (* as sv_scheme_fits_key, for CertificateVerify *)
+  cl_signed_by_leaf : bool     (* ground truth: CertificateVerify made with the leaf's private key over this transcript *)
 }.
 
 (* certificate part of flight4Parse; second component = state.PeerCertificatesVerified *)
-Definition server12_certs (s : scfg) (v : cview) : verdict * bool :=
+Definition server12_certs_with (bind : bool) (s : scfg) (v : cview) : verdict * bool :=
   if cl_cv_msg v then
     if negb (cl_certs_given v) then (Reject a_no_certificate, false)
     else if negb (cl_scheme_allowed v) then (Reject a_insufficient_security, false)
-    else if negb (cl_cert_parses v && cl_cv_valid v) then (Reject a_bad_certificate, false)
+    else if negb (cl_cert_parses v && (negb bind || cl_scheme_fits_key v) && cl_cv_valid v)
+         then (Reject a_bad_certificate, false)
     else if policy_verifies (sc_policy s) && negb (cl_chain_valid v) then (Reject a_bad_certificate, false)
     else if sc_has_vpc s && negb (cl_vpc_ok v) then (Reject a_bad_certificate, false)
     else (Accept, policy_verifies (sc_policy s))
@@ -192,14 +223,17 @@ Definition server12_policy (p : client_auth) (given verified : bool) : verdict :
 Definition server12_vc (s : scfg) (v : cview) : verdict :=
   check (negb (sc_has_vc s) || cl_vc_ok v) a_bad_certificate.
 
-Definition server12_with (checks_fin : bool) (s : scfg) (v : cview) : verdict :=
+Definition server12_gen (bind checks_fin : bool) (s : scfg) (v : cview) : verdict :=
   if negb (cl_cke_msg v) then Wait else
-  andthen (fst (server12_certs s v))
+  andthen (fst (server12_certs_with bind s v))
  (if negb (cl_fin_arrives v) then Wait else
   andthen (check (negb checks_fin || cl_fin_valid v) a_handshake_failure)
  (if is_anon (cl_suite v) then server12_vc s v
-  else andthen (server12_policy (sc_policy s) (cl_certs_given v) (snd (server12_certs s v)))
+  else andthen (server12_policy (sc_policy s) (cl_certs_given v) (snd (server12_certs_with bind s v)))
                (server12_vc s v))).
+
+Definition server12_with : bool -> scfg -> cview -> verdict := server12_gen verify_binds_scheme_to_key.
+Definition server12_certs : scfg -> cview -> verdict * bool := server12_certs_with verify_binds_scheme_to_key.
 
 Definition server12 : scfg -> cview -> verdict := server12_with server12_checks_client_finished.
 
@@ -222,6 +256,58 @@ Definition server_required (s : scfg) (v : cview) : bool :=
       | RequireAndVerifyClientCert => cl_pop v && cl_chain_valid v
       end)
   && (negb (cl_certs_given v) || negb (sc_has_vpc s) || cl_vpc_ok v).
+
+(* [v] with another truth value for "the client's verify_data matches" *)
+Definition cl_with_fin_valid (v : cview) (b : bool) : cview :=
+  mk_cview (cl_suite v) (cl_cke_msg v) (cl_certs_given v) (cl_cert_parses v) (cl_cv_msg v) (cl_scheme_allowed v)
+           (cl_cv_valid v) (cl_chain_valid v) (cl_vpc_ok v) (cl_vc_ok v) (cl_fin_arrives v) b
+           (cl_cert_msg v) (cl_scheme_fits_key v) (cl_signed_by_leaf v).
+
+Definition server_credential (s : scfg) (v : cview) : bool :=
+  server_required s v && (negb (cl_certs_given v) || (cl_scheme_fits_key v && cl_signed_by_leaf v)).
+
+Definition sig_sound_c (v : cview) : Prop :=
+  cl_scheme_fits_key v = true -> cl_cv_valid v = true -> cl_signed_by_leaf v = true.
+
+(* ---------------------------------------------------------------- the server's session store
+
+   THE SWITCH for defect F46 (refused client resumes, repaired in /repo by ff39c53): flight4Parse
+   called SetSession(id, master secret) right after deriving the master secret - before the client's
+   Finished was verified and before the ClientAuth switch.  [true] = the repaired code: the session
+   is saved after the Finished check, the policy switch and VerifyConnection, i.e. exactly when the
+   verdict is Accept. *)
+Definition server12_stores_session_after_checks : bool := true.
+
+Definition is_reject (v : verdict) : bool := match v with Reject _ => true | _ => false end.
+
+(* does flight4Parse reach the point where the master secret exists? *)
+Definition server12_has_master (bind : bool) (s : scfg) (v : cview) : bool :=
+  cl_cke_msg v && is_accept (fst (server12_certs_with bind s v)).
+
+(* SetSession is called (a session id exists only with a store, and a client Certificate message clears it) *)
+Definition server12_session_stored (after bind chk : bool) (s : scfg) (has_store : bool) (v : cview) : bool :=
+  has_store && negb (cl_cert_msg v) &&
+  (if after then is_accept (server12_gen bind chk s v) else server12_has_master bind s v).
+
+(* ... and is still there afterwards: conn.go notify deletes it when a fatal alert is sent *)
+Definition server12_session_remains (after bind chk : bool) (s : scfg) (has_store : bool) (v : cview) : bool :=
+  server12_session_stored after bind chk s has_store v && negb (is_reject (server12_gen bind chk s v)).
+
+(* flight0Parse handleHelloResume -> Flight4b / flight4bParse: the abbreviated handshake looks at the
+   store and at the client's Finished under the stored master secret - never at ClientAuth *)
+Definition server12_resume (fin_arrives fin_valid : bool) : verdict :=
+  if negb fin_arrives then Wait else check fin_valid a_handshake_failure.
+
+(* two connections of one client to one server: [v1] the first (full) handshake; the second offers
+   the session id of the first - abbreviated if the entry is there, else a full handshake [v2] *)
+Definition server12_second_conn (after bind chk : bool) (s : scfg) (has_store : bool) (v1 v2 : cview)
+           (rfin_arrives rfin_valid : bool) : verdict :=
+  if server12_session_remains after bind chk s has_store v1
+  then server12_resume rfin_arrives rfin_valid
+  else server12_gen bind chk s v2.
+
+Definition server12_second : scfg -> bool -> cview -> cview -> bool -> bool -> verdict :=
+  server12_second_conn server12_stores_session_after_checks verify_binds_scheme_to_key server12_checks_client_finished.
 
 (* ================================================================ DTLS 1.3 protected flight *)
 
@@ -249,7 +335,10 @@ Record pview := mk_pview {
   p_x509_ok : bool;          (* VerifyServerCert (roots, name, time) resp. VerifyClientCert *)
   p_vpc_ok : bool;
   p_vc_ok : bool;
-  p_fin_valid : bool         (* verify_data = HMAC(finished_key, transcript hash) *)
+  p_fin_valid : bool;        (* verify_data = HMAC(finished_key, transcript hash) *)
+  p_pss_oid_ok : bool;       (* validateSignatureAlgOID: a claimed RSA-PSS scheme matches the certificate's key OID *)
+  p_scheme_fits_key : bool;
+  p_signed_by_leaf : bool
 }.
 
 Definition p_has_certs (v : pview) : bool := p_cert_msg v && p_certs_nonempty v.
@@ -267,12 +356,16 @@ Definition flight13_identity (k : cfg13) (v : pview) : verdict :=
      else check (k_skip_verify k || p_x509_ok v) a_bad_certificate)
     (check (negb (k_has_vpc k) || p_vpc_ok v) a_bad_certificate).
 
-Definition flight13_certificate_verify (k : cfg13) (v : pview) : verdict :=
+Definition a_internal_error : N := 80.
+
+Definition flight13_certificate_verify_with (bind : bool) (k : cfg13) (v : pview) : verdict :=
   if negb (p_cv_msg v) then Accept else
   andthen (check (p_has_certs v) a_no_certificate)
  (andthen (check (p_scheme_allowed v) a_insufficient_security)
+ (andthen (check (p_pss_oid_ok v) a_bad_certificate)                     (* ErrInvalidCertificateOID *)
+ (andthen (check (negb bind || p_scheme_fits_key v) a_internal_error)    (* ErrInvalidSignatureAlgorithm: not mapped *)
  (andthen (check (p_cert_parses v && p_cv_valid v) a_bad_certificate)
-          (flight13_identity k v))).
+          (flight13_identity k v))))).
 
 Definition flight13_finished_with (req_srv_cert : bool) (k : cfg13) (v : pview) : verdict :=
   andthen (check (negb (p_has_certs v) || p_cv_msg v) a_bad_certificate)        (* ErrClientCertificateNotVerified *)
@@ -282,15 +375,22 @@ Definition flight13_finished_with (req_srv_cert : bool) (k : cfg13) (v : pview) 
  (andthen (check (p_fin_valid v) a_handshake_failure)
           (check (negb (k_has_vc k) || p_vc_ok v) a_bad_certificate)))).
 
-Definition flight13_with (req_srv_cert : bool) (k : cfg13) (v : pview) : verdict :=
+Definition flight13_gen (bind req_srv_cert : bool) (k : cfg13) (v : pview) : verdict :=
   andthen (flight13_certificate v)
- (andthen (flight13_certificate_verify k v) (flight13_finished_with req_srv_cert k v)).
+ (andthen (flight13_certificate_verify_with bind k v) (flight13_finished_with req_srv_cert k v)).
+
+Definition flight13_with : bool -> cfg13 -> pview -> verdict := flight13_gen verify_binds_scheme_to_key.
+Definition flight13_certificate_verify : cfg13 -> pview -> verdict :=
+  flight13_certificate_verify_with verify_binds_scheme_to_key.
 
 Definition flight13 : cfg13 -> pview -> verdict := flight13_with client13_requires_server_certificate.
 
 (* proof of possession in a protected flight *)
 Definition p_pop (v : pview) : bool :=
   p_has_certs v && p_cv_msg v && p_scheme_allowed v && p_cv_valid v.
+
+Definition sig_sound_p (v : pview) : Prop :=
+  p_scheme_fits_key v = true -> p_cv_valid v = true -> p_signed_by_leaf v = true.
 
 (* server side of 1.3 (flight sent by the client) *)
 Definition server13_required (k : cfg13) (v : pview) : bool :=
@@ -308,3 +408,7 @@ Definition server13_required (k : cfg13) (v : pview) : bool :=
 Definition client13_required (k : cfg13) (v : pview) : bool :=
   p_fin_valid v && (negb (k_has_vc k) || p_vc_ok v)
   && p_pop v && (k_skip_verify k || p_x509_ok v) && (negb (k_has_vpc k) || p_vpc_ok v).
+
+Definition flight13_credential (k : cfg13) (v : pview) : bool :=
+  (if p_from_client v then server13_required k v else client13_required k v)
+  && (negb (p_has_certs v) || (p_scheme_fits_key v && p_signed_by_leaf v)).
